@@ -7,6 +7,7 @@ import (
 	"os"
 	"pegsim/sim"
 	"strconv"
+	"strings"
 	"testing"
 
 	"pegsim/model"
@@ -280,4 +281,37 @@ func TestDbgAddrs(t *testing.T) {
 		}
 	}
 	fmt.Fprintf(os.Stderr, "first %d tip %d act %v\n", w.Spec.First, w.Tip(), w.Spec.Config.Act)
+}
+
+// TestDbgProbe counts worlds of a property in which the model reports a probe containing $PROBE.
+func TestDbgProbe(t *testing.T) {
+	c := registry[os.Getenv("P")]
+	n, _ := strconv.Atoi(os.Getenv("N"))
+	hit, static := 0, 0
+	for i := 0; i < n; i++ {
+		seed := subSeed(1, os.Getenv("P"), i)
+		sc, err := c.Gen(seed, "quick")
+		if err != nil {
+			t.Fatal(err)
+		}
+		if sc.Profile.Jitter == 0 && sc.Profile.PriceStep == 0 {
+			static++
+		}
+		w, _ := buildWorld(sc)
+		l := model.New(w, model.Options{})
+		found := false
+		for l.Height < w.Tip() {
+			res := l.Step()
+			for _, p := range res.Probes {
+				if strings.Contains(p, os.Getenv("PROBE")) {
+					found = true
+				}
+			}
+		}
+		if found {
+			hit++
+			fmt.Fprintf(os.Stderr, "  hit seed %d\n", seed)
+		}
+	}
+	fmt.Fprintf(os.Stderr, "%s: %d of %d worlds hit %q (%d with static prices)\n", os.Getenv("P"), hit, n, os.Getenv("PROBE"), static)
 }
